@@ -328,6 +328,59 @@ Theorem C10_prefix_in_local_no_root_cause :
 Proof. intros E1 E2 tg. unfold rc_prefix_in_local. rewrite E1, E2. reflexivity. Qed.
 Print Assumptions C10_prefix_in_local_no_root_cause.
 
+(** C10-F10: the query of a SPARQL selector holds the keyword [SPARQL] itself
+    (here inside a predicate IRI).  [NodeSelectorParser._parse_sparql_expression]
+    removes the keyword with [raw_selector.replace("SPARQL", "")] -- every
+    occurrence: the query silently becomes one about [<http://e/status>], whose
+    answer (here: nothing) is taken for the selector's -- or with
+    [replace("SPARQL", "", 1)] -- the leading keyword only: such queries are
+    inside [C10_dom].  tools/gen_consts.py tells which ([c_sel_sparql_strip_once]). *)
+Definition f10_query : str := Str "select ?s where { ?s <http://e/SPARQLstatus> ?o }".
+Definition f10_mangled : str := Str "select ?s where { ?s <http://e/status> ?o }".
+Definition f10_orc : oracles :=
+  {| o_rid := fun _ => Str "N0"; o_wf := fun _ => true;
+     o_ans := fun q => if str_eqb q f10_query then [ON n0] else [];
+     o_dis0 := 0%N; o_rand_prefix := [] |}.
+Definition f10_target : target := one_item (SelSparql f10_query) (Angle (Str "http://sh/S0")) false.
+Definition f10_graph : graph := [T n0 (Str "http://e/SPARQLstatus") (ON n1)].
+
+Lemma C10_sparql_kw_in_query_refuted :
+  c_sel_sparql_strip_once = false ->
+  exists tg cs fmt orc G, rc_sparql_kw_in_query tg = true /\ C10_dom tg orc G = false /\
+                          ~ C10_statement tg cs fmt orc G.
+Proof.
+  intros E.
+  first [ vm_compute in E; discriminate E      (* only the leading keyword is removed: nothing to refute *)
+        | exists f10_target, ClsList, FmtFixed, f10_orc, f10_graph;
+          split; [vm_compute; reflexivity|]; split; [vm_compute; reflexivity|];
+          eapply (refute_by_missing _ _ _ _ _ _ (KLabel (Str "http://sh/S0")) n0);
+          vm_compute; reflexivity ].
+Qed.
+
+(** the same input once the line carries the count 1 (regression example) *)
+Example C10_sparql_kw_in_query_fixed :
+  c_sel_sparql_strip_once = true ->
+  C10_dom_count f10_target f10_orc f10_graph = true /\
+  rc_sparql_kw_in_query f10_target = false /\
+  run f10_orc (to_tspec f10_target ClsList FmtFixed) f10_graph = OOk [(Str "http://e/n0", [Str "<http://sh/S0>"])].
+Proof.
+  intros E. first [ vm_compute in E; discriminate E | vm_compute; repeat split; reflexivity ].
+Qed.
+
+Theorem C10_sparql_kw_domain :
+  forall wf q,
+    ok_query wf q =
+    nochar (ascii_of_nat 10) q && (c_sel_sparql_strip_once || negb (contains c_sel_sparql_kw q)) && wf q &&
+    (let head := slice_to q (find (Str "{") q) in
+     contains (Str "select") (lower head) && Nat.eqb (count_char "?"%char head) 1).
+Proof. reflexivity. Qed.
+Print Assumptions C10_sparql_kw_domain.
+
+Theorem C10_sparql_kw_no_root_cause :
+  c_sel_sparql_strip_once = true -> forall tg, rc_sparql_kw_in_query tg = false.
+Proof. intros E tg. unfold rc_sparql_kw_in_query. rewrite E. reflexivity. Qed.
+Print Assumptions C10_sparql_kw_no_root_cause.
+
 (** ... while a ':' in the local name of any other prefix is inside the domain *)
 Example C10_colon_in_local_name :
   let tg := one_item (SelFocusSubj FA (FIri (Pref (Str "ex") (Str "K:1")))) (Pref (Str "sh") (Str "S:0")) false in
